@@ -52,6 +52,7 @@ def strategy_(draw):
     }
     if variant == "alpha":
         c["m_offset"] = draw(st.floats(1e-3, 10.0))
+        c["int_pseudopressure"] = draw(st.integers(0, 2)) == 0  # whole numbers read from a CSV come as int64
     if variant == "reject-missing":
         c["drop"] = draw(st.sampled_from(["pseudopressure", "compressibility", "pressure", "viscosity", "z-factor"]))
         c["wrapper"] = draw(st.sampled_from(["standard", "simple"]))
@@ -175,6 +176,12 @@ def check_case(case) -> Result:
     # ---- constructions -----------------------------------------------------------------------------
     if variant == "alpha":
         t = {"pressure": tab["pressure"], "pseudopressure": tab["pseudopressure"] + case["m_offset"] * max(float(tab["pseudopressure"][-1]), 1e-300), "alpha": 1 / (tab["compressibility"] * tab["viscosity"])}
+        if case.get("int_pseudopressure"):
+            # whole-number pseudopressures held in an integer column (scaled so that rounding keeps them increasing)
+            col = t["pseudopressure"]
+            scale = 1e6 / max(float(np.min(np.diff(col))), 1e-300) if float(np.min(np.diff(col))) < 1e3 else 1.0
+            t["pseudopressure"] = np.rint(col * scale).astype(np.int64)
+            res.labels["pseudopressure_dtype"] = "int64"
         if case["extra_column"]:
             for k in ("compressibility", "viscosity", "z-factor"):
                 t[k] = tab[k]
